@@ -458,9 +458,9 @@ func runC19(env *lib.Env, rep *lib.Report) {
 			rec(nil)
 			// (b) every injective mapping of CSV fields {0,1,2} to a non-empty ordered subset of the columns x separators
 			reprs := [][]c19Record{{alphabet[0]}, {alphabet[1], alphabet[0]}, {alphabet[len(alphabet)-1], alphabet[0], alphabet[2%len(alphabet)]}}
-		// a record with too few fields between valid ones (reporting it must not disturb the mapping of the others)
-		short := c19Record{fields: append([]string{}, valid...), defect: "short"}
-		reprs = append(reprs, []c19Record{short, alphabet[0]}, []c19Record{alphabet[0], short, alphabet[1], alphabet[0]})
+			// a record with too few fields between valid ones (reporting it must not disturb the mapping of the others)
+			short := c19Record{fields: append([]string{}, valid...), defect: "short"}
+			reprs = append(reprs, []c19Record{short, alphabet[0]}, []c19Record{alphabet[0], short, alphabet[1], alphabet[0]})
 			var dsts [][]int
 			var sub func(cur []int)
 			sub = func(cur []int) {
@@ -501,6 +501,48 @@ func runC19(env *lib.Env, rep *lib.Report) {
 					}
 				}
 				inj(nil)
+				// the same CSV field may feed several columns: all maps of the destination positions to fields 0..2 where
+				// at least two positions share a field, with a value every mapped type accepts ("TRUE" for boolean and
+				// varchar, "1" once a number column takes part)
+				if len(dst) >= 2 {
+					var rec2 func(cur []int)
+					rec2 = func(cur []int) {
+						if len(cur) == len(dst) {
+							seen := map[int]bool{}
+							dup := false
+							for _, x := range cur {
+								if seen[x] {
+									dup = true
+								}
+								seen[x] = true
+							}
+							if !dup {
+								return
+							}
+							shared := "TRUE"
+							for _, di := range dst {
+								if types[di] == "int" || types[di] == "bigint" {
+									shared = "1"
+								}
+							}
+							for _, sep := range []rune{',', '\t'} {
+								for _, text := range []string{shared, "False", "t"} {
+									if shared == "1" && text != shared {
+										continue
+									}
+									w1 := c19Record{fields: []string{text, text, text}}
+									w2 := c19Record{fields: []string{"zz", "zz", "zz"}, defect: "short"}
+									run(c19Case{types: types, dstCols: dst, srcCols: append([]int{}, cur...), sep: sep, records: []c19Record{w1, w2, w1}, viaFlags: true}, "mappings/shared-field")
+								}
+							}
+							return
+						}
+						for s := 0; s < 3; s++ {
+							rec2(append(cur, s))
+						}
+					}
+					rec2(nil)
+				}
 				for _, src := range srcs {
 					for _, sep := range []rune{',', ';', '\t', '§', '€', '|'} {
 						for _, rs := range reprs {
